@@ -18,7 +18,7 @@ CaseOfCall(k) ==
 Judge(o) ==
   LET en == CallsT[o.call].entry
   IN IF en \in {"string", "parse", "realias"}
-     THEN (IF o.o.e = "none:" /\ o.txt # <<>> THEN {} ELSE {"C19.crash"})      \* the text itself is compared with the solo text in Trace_Object
+     THEN (IF o.o.bad # "" THEN {"C19." \o o.o.bad} ELSE IF o.o.e = "none:" /\ o.txt # <<>> THEN {} ELSE {"C19.crash"})      \* the text itself is compared with the solo text in Trace_Object
      ELSE JudgeEntry(CaseOfCall(o.call), IF en = "query2v" THEN "query" ELSE en, DecodeEntry(o.o))   \* query2v: Query with two WithVars options meaning the same
 
 VARIABLES l, verdict
